@@ -83,6 +83,19 @@ CHECKS = {
         "rationals; atan2 homogeneity lemma instances for the Cylinder; CylinderSegment and TriangularMesh linearity not decided.",
         design="3/C05",
     ),
+    "C07": dict(
+        engine="E2",
+        technique="symbolic execution of the real top-level functions, source/sensor/collection methods, the functional interface "
+        "(getBH_dict_level2: rank table, ragged detection, tiling) and the class level-0 functions over z3 terms; results compared term by "
+        "term per feasible path as SMT obligations; call forms that raise are replayed concretely",
+        text="Bounded symbolic model checking: for every registered source class and X in B,H,J,M, seven call forms of one symbolic "
+        "configuration (pose, dimensions, excitation, observer symbolic) return identical terms on every feasible mask path; the functional "
+        "interface is exercised with a single parameter set and with n=2 per-instance arrays; a documented call form that raises where the "
+        "object interface succeeds is a violation (this is how wrong rank-table entries were found and fixed).",
+        note="Real arithmetic; leaf kernels uninterpreted; vertices/meshes from fixed lists; rational fixed rotation for Cylinder, "
+        "CylinderSegment, Circle, Polyline; dataframe output not decided; CustomSource has no functional interface.",
+        design="3/C07",
+    ),
 }
 
 NOT_APPLICABLE = {
